@@ -199,8 +199,9 @@ finishUp:
 			return mantissa, 0, neg, trunc, p, false
 		}
 		e := 0
+		maxE := maxExponent(len(data))
 		for ; p < len(data) && (data[p] >= '0' && data[p] <= '9'); p++ {
-			if e < 10000 {
+			if e < maxE {
 				e = e*10 + int(data[p]) - '0'
 			}
 		}
@@ -304,11 +305,12 @@ func (a *decimal) set(data []byte) (ok bool) {
 			return false
 		}
 		e := 0
+		maxE := maxExponent(len(data))
 		for ; i < len(data); i++ {
 			if data[i] < '0' || data[i] > '9' {
 				break
 			}
-			if e < 10000 {
+			if e < maxE {
 				e = e*10 + int(data[i]) - '0'
 			}
 		}
@@ -320,6 +322,18 @@ func (a *decimal) set(data []byte) (ok bool) {
 	}
 
 	return true
+}
+
+// maxExponent is the value beyond which the digits of a decimal exponent stop being accumulated.
+// The exponent has to be exact for as long as the digit count of the literal (at most n, its length)
+// could still bring the value back into range; 1000 further out the result is an overflow or a zero
+// whatever the remaining exponent digits are. The cap keeps e*10+9 and dp+e inside a 32-bit int.
+func maxExponent(n int) int {
+	const limit = 100000000
+	if n > limit-1000 {
+		return limit
+	}
+	return n + 1000
 }
 
 // decimal power of ten to binary power of two.
